@@ -371,7 +371,7 @@ impl Case for BlkCase {
         let w_bad = if rng.chance(1, 40) { 1 } else { 0 };
         match rng.weighted(&[w_f, w_poll, w_r, w_re, w_spur, w_bad]) {
             0 => Some(format!("blk f {}", rng.pick(&mid))),
-            1 => Some(if rng.chance(1, 3) { "blk pollinf".to_string() } else { "blk poll".to_string() }),
+            1 => Some(if rng.chance(1, 3) { "blk pollinf".to_string() } else if rng.chance(1, 4) { "blk polli".to_string() } else { "blk poll".to_string() }),
             2 => Some("blk r".into()),
             3 => Some(format!("blk repoll {}", rng.pick(&woken_blocked))),
             4 => Some(format!("blk repoll {}", rng.pick(&blocked))),
@@ -404,15 +404,23 @@ impl Case for BlkCase {
                 self.collect_wakes();
                 format!("f{i} {} {}", self.futs[i].label, self.state())
             }
-            ["blk", which @ ("poll" | "pollinf")] => {
+            // `polli`: a `Ring::poll(None)` during which a signal arrives — its wait, if it comes to
+            // one, ends with EINTR: the wake pass of `Shared::enter` runs as for ETIME and the call
+            // returns (the model's zero-timeout poll)
+            ["blk", which @ ("poll" | "pollinf" | "polli")] => {
                 if self.rw.is_some() {
                     return vec!["bad-op".into()];
+                }
+                let intr = *which == "polli";
+                simk::with_ring(self.rfd, |r, _| r.intr_next_wait = intr);
+                if intr {
+                    self.feats.push("poll-interrupted".into());
                 }
                 let inf = *which == "pollinf";
                 let ring = self.ring.clone();
                 let tid = sched::spawn(move || {
                     let mut r = lockp(&ring).take().expect("ring in use");
-                    let _ = r.poll(if inf { None } else { Some(Duration::ZERO) });
+                    let _ = r.poll(if inf || intr { None } else { Some(Duration::ZERO) });
                     *lockp(&ring) = Some(r);
                     String::new()
                 });
